@@ -378,6 +378,24 @@ func (u *Unit) havocArg(st *State, fr *Frame, lc *LoopContract, a ssa.Value, hav
 			// pointer value loaded from a cell: the pointee object
 			if cell, ok := x.X.(*ssa.Alloc); ok {
 				if lc.body[cell.Block()] {
+					// a per-iteration variable: where did its pointer value come from?
+					for _, blk := range fr.fn.Blocks {
+						if !lc.body[blk] {
+							continue
+						}
+						for _, in2 := range blk.Instrs {
+							if s2, ok := in2.(*ssa.Store); ok && s2.Addr == cell {
+								if ld, ok := s2.Val.(*ssa.UnOp); ok {
+									switch src := ld.X.(type) {
+									case *ssa.IndexAddr, *ssa.FieldAddr:
+										if !havocThrough(src) {
+											return false
+										}
+									}
+								}
+							}
+						}
+					}
 					return true
 				}
 				pv, ok := u.load(st, fr, fr.regs[cell], nil)
